@@ -76,6 +76,14 @@ BDi == Term("bdiag", 38, List2, <<>>, <<InvOf(A), DInvOf(D)>>)  \* its block-wis
 BRl == Term("brow", 39, List2, <<>>, <<A, B>>)                  \* L22 -> v2
 BCl == Term("bcol", 40, List2, <<>>, <<B, D>>)                  \* v2 -> L22
 
+\* ---- move-axis pairs that are NOT inverses although their argument tuples look alike
+m234 == LeafF(<<2, 3, 4>>)
+Lmix == ListS(<<m23, m222>>)                                    \* leaves of different rank
+Mp == Term("mvax", 41, Lmix, <<0, -1>>, <<>>)                   \* axis 0 -> last: position 1 on the first leaf, 2 on the second
+Mq == Term("mvax", 42, ListS(<<m32, m222>>), <<1, 0>>, <<>>)    \* undoes Mp on the first leaf only
+Ma == Term("mvax", 43, m234, <<0, 1, 1, 2>>, <<>>)              \* (0,1) -> (1,2): (2,3,4) -> (4,2,3)
+Mb == Term("mvax", 44, LeafF(<<4, 2, 3>>), <<2, 1, 0, 1>>, <<>>)   \* (2,1) -> (0,1): same axis sets as the inverse of Ma, pairing swapped
+
 Inv(t) == InvOf(t)
 
 \* named atoms: name -> term.  The names are only labels for humans and evidence.
@@ -92,7 +100,7 @@ AtomTable ==
     I2v |-> Id(v2), I3v |-> Id(v3), Iqu |-> Id(QU2), Im |-> Id(m23),
     H2 |-> Hom(2, 1, v2), Hh |-> Hom(-1, 2, v2), H3 |-> Hom(3, 1, v3), Hq |-> Hom(-3, 1, QU2), Hm |-> Hom(1, 2, m23),
     H6 |-> Hom(2, 1, v6), D0 |-> D0, D0I |-> DInvOf(D0), Dl |-> Dl, DlI |-> DInvOf(Dl), Prl |-> Prl, PrlT |-> TOf(Prl), BDl |-> BDl, BDi |-> BDi, BRl |-> BRl, BCl |-> BCl,
-    Il |-> Id(L22), Hl |-> Hom(-2, 1, L22), Mc |-> Mc, McT |-> Transpose(Mc), Mn |-> Mn, Dq |-> Dq, DqI |-> DInvOf(Dq), Dh |-> Dh, D3I |-> DInvOf(D3), AB |-> AddT(<<A, B>>) ]
+    Il |-> Id(L22), Hl |-> Hom(-2, 1, L22), Mp |-> Mp, Mq |-> Mq, MpT |-> Transpose(Mp), Ma |-> Ma, Mb |-> Mb, MaT |-> Transpose(Ma), Mc |-> Mc, McT |-> Transpose(Mc), Mn |-> Mn, Dq |-> Dq, DqI |-> DInvOf(Dq), Dh |-> Dh, D3I |-> DInvOf(D3), AB |-> AddT(<<A, B>>) ]
 
 AllAtomNames == DOMAIN AtomTable
 =============================================================================
